@@ -17,6 +17,7 @@
  R8 cable names   : names embedding a fibre direction pair from->to with the east cable id and to->from with the west one.
  R9 ILA degree    : every ILA whose number of links differs from 2 is corrected to a ROADM.
  R10 route index  : the live route list is never edited through the enumeration index of its snapshot (service sheet).
+ R11 next node    : corresp_next_node walks over every passive line element and only those (truth table).
 """
 import ast
 import re
@@ -498,5 +499,30 @@ def r10_route_index(ctx):
                   'entries skipped earlier in the loop: another hop is overwritten or removed', '; '.join(ast.unparse(b)[:60] for b in bad))
     ctx.need('R10.route-index', 1)
 
+
+def r11_next_node(ctx):
+    """R11: the site that follows an amplifier is found by walking over EVERY passive line element (fibres of any kind and fused
+    nodes) and stopping at the first other element: truth table of the isinstance test of the walk in corresp_next_node"""
+    from ..typedomain import truth_table
+    repo = ctx.repo
+    f = repo.func(CV, 'corresp_next_node')
+    el = repo.module('gnpy.core.elements')
+    dom = [el.classes[n] for n in ('Fiber', 'RamanFiber', 'Fused', 'Edfa', 'Multiband_amplifier', 'Roadm', 'Transceiver')]
+    whiles = [n for n in walk_no_nested(f.node) if isinstance(n, ast.While) and 'isinstance' in ast.unparse(n.test)]
+    ok = len(whiles) == 1
+    det = ''
+    if ok:
+        w = whiles[0]
+        var = next((x.id for x in ast.walk(w.test) if isinstance(x, ast.Name) and x.id not in ('isinstance', 'Fiber', 'Fused', 'RamanFiber')), None)
+        tt = truth_table(repo, f.module, w.test, [var], dom)
+        wrong = sorted(k[0] for k, v in tt.items() if v != (k[0] in ('Fiber', 'RamanFiber', 'Fused')))
+        adv = [s for s in w.body if isinstance(s, ast.Assign) and ast.unparse(s.targets[0]) == var and 'successors' in ast.unparse(s.value)]
+        ok = not wrong and len(adv) == 1
+        det = f'wrong for {wrong}'
+    ctx.check('R11.next-node', site(f), ok, key(f, 'walk'),
+              'the search for the site that follows an amplifier does not skip exactly the passive line elements (fibres and fused nodes): '
+              'a route hop behind a fused site would not be matched and silently drop out of the request', det)
+    ctx.need('R11.next-node', 1)
+
 RULES = [('R1.headers', r1_headers), ('R2.mirrors', r2_mirrors), ('R3.defaulting', r3_defaulting), ('R4.units', r4_units),
-         ('R5.errors', r5_errors), ('R6.rows', r6_rows), ('R7.node-types', r7_node_types), ('R8.cable-names', r8_cable_names), ('R9.ila-degree', r9_ila_degree), ('R10.route-index', r10_route_index)]
+         ('R5.errors', r5_errors), ('R6.rows', r6_rows), ('R7.node-types', r7_node_types), ('R8.cable-names', r8_cable_names), ('R9.ila-degree', r9_ila_degree), ('R10.route-index', r10_route_index), ('R11.next-node', r11_next_node)]
